@@ -29,7 +29,8 @@ Inductive cop :=
 | OSend (k : nat) (oneway more upgrade : bool)   (* MethodCall::send *)
 | ORecv (k : nat)                                (* MethodCall::recv *)
 | OSetCont (k : nat)                             (* more() sets continues before sending *)
-| ONext (k : nat).                               (* Iterator::next *)
+| ONext (k : nat)                                (* Iterator::next *)
+| ODrop (k : nat).                               (* the call object goes out of scope (an iterator abandoned mid-stream) *)
 
 Inductive errkind :=
 | EBusy | ECalledAlready | EOldReply | EClosed | EDecode
@@ -124,6 +125,11 @@ Definition cstep (s : cstate) (o : cop) : cstate * cout :=
       (mkcs (upd (cs_calls s) k (fun c => mkcall (c_fresh c) (c_owns c) true)) (cs_idle s) (cs_inbox s) (cs_sent s) (cs_finals s), RUnit)
   | ONext k =>
       if c_cont (get_call s k) then do_recv s k else (s, RNone)
+  | ODrop k =>
+      (* MethodCall has no Drop impl: whatever the object holds goes with it. If it held the connection's reader and
+         writer they are gone for good - nobody gets them back, the connection stays busy (c_owns is kept as the ghost
+         of that fact); the object itself can do nothing any more *)
+      (mkcs (upd (cs_calls s) k (fun c => mkcall false (c_owns c) false)) (cs_idle s) (cs_inbox s) (cs_sent s) (cs_finals s), RUnit)
   end.
 
 Fixpoint crun (s : cstate) (ops : list cop) : cstate * list cout :=
